@@ -94,7 +94,7 @@ PROPS = {
     },
     "C11": {
         "runs": msgs_runs, "replay_runs": replay_runs, "monitor": mon_msgs.c11, "facts": facts.gen_msg_facts,
-        "diff_relevant": lambda d: d["mod"] in ("msgtable", "oracle", "wasm") or
+        "diff_relevant": lambda d: d["mod"] in ("msgtable", "oracle", "wasm") or (d["mod"] == "query" and d["op"].startswith("oracle.")) or
             (d["mod"] == "rns" and (d["op"] == "makePrimary" or "primary" in d["fields"])) or
             (d["mod"] == "notif" and d["op"] in ("block", "delete")) or
             (d["mod"] == "storage" and (d["op"] in ("initProvider", "shutdownProvider", "setProviderIP", "setProviderKeybase", "setProviderTotalSpace", "addClaimer", "removeClaimer", "deleteFile") or "providers" in d["fields"])),
